@@ -57,7 +57,6 @@ example : Gen.autoRadius (6 / 10) (24 / 10) = some (12 / 10) := by decide +kerne
 example : Gen.autoRadius 1 (24 / 10) = some (1195 / 1000) := by decide +kernel
 example : Gen.autoRadius 1 (1 / 2) = none := by decide +kernel
 
-
 /-- the separations that enter are minimum-image distances of the SIMULATION cell (not of the site structure's own cell) -/
 theorem site_separations_in_simulation_cell : Gen.siteSeparationsInSimulationCell = true := by
   rfl
